@@ -156,3 +156,15 @@ def process_history_prelude(rng):
     call(lambda: bnp.io.strops.str_to_float(bnp.as_encoded_array(["1.5", "2e3", "-.5"])))
     call(lambda: bnp.io.strops.ints_to_strings(np.array([0, -10, 999])).tolist())
     return n
+
+
+BLOCK_SIZES = (256, 1000, 1024, 4096, 8192, 10000, 65536, 100000, 1 << 20)
+
+
+def boundary_length(rng, top=1 << 20):
+    """A length at or next to a size where blocked / tabulated / narrow-integer code changes behaviour: k*B-1, k*B, k*B+1 for the block
+    sizes programs commonly use.  Workloads add a few of these to their ordinary lengths; the oracle is the same as for short inputs."""
+    sizes = [b for b in BLOCK_SIZES if b <= top] or [top]
+    b = rng.choice(sizes)
+    k = rng.choice([1, 1, 1, 2, 3]) if b * 3 <= top else 1
+    return max(0, k * b + rng.choice([-1, 0, 0, 1]))
